@@ -9,6 +9,13 @@ ALL = LABELLED + MATRIX
 BOOL = ["PUBO", "QUBO", "PCBO", "PUBOMatrix", "QUBOMatrix"]
 SPIN = ["PUSO", "QUSO", "PCSO", "PUSOMatrix", "QUSOMatrix"]
 
+# ancilla freshness travels through arithmetic: if no key of the operands mentions an ancilla name '__a<j>' with
+# j >= gn() (gn(): ghost bound, arbitrary), no key of the result does
+AF_INPLACE = "implies(old(keys_ancbelow(self, gn())) and keys_ancbelow(other, gn()), keys_ancbelow(self, gn()))"
+AF_RESULT2 = "implies(keys_ancbelow(self, gn()) and keys_ancbelow(other, gn()), keys_ancbelow(result, gn()))"
+AF_RESULT1 = "implies(keys_ancbelow(self, gn()), keys_ancbelow(result, gn()))"
+AF_SELF1 = "implies(old(keys_ancbelow(self, gn())), keys_ancbelow(self, gn()))"
+
 BK = ["self._degree", "self._variables", "self._num_binary_variables"]
 BK_BO = BK + ["self._mapping", "self._reverse_mapping", "self._next_label"]
 STORE_BK = ["self.<store>"] + BK_BO       # the terms and the variable bookkeeping, nothing else of the object
@@ -114,8 +121,10 @@ contract("qubovert.utils._dict_arithmetic:DictArithmetic.__init__", props=["C05"
                    "bk(self)"],
          returns="none", modifies=["self"],
          ensures=["den(self) == (den_as(self, args[0]) if len(args) == 1 else 0)", "wf(self)",
-                  "len(args) == 1 or is_empty(self)", "bk(self)"],
-         loops={1: {"invariant": "den(self) == den_as(self, visited) and wf(self) and bk(self)"}})
+                  "len(args) == 1 or is_empty(self)", "bk(self)",
+                  "len(args) == 0 or implies(keys_ancbelow(args[0], gn()), keys_ancbelow(self, gn()))"],
+         loops={1: {"invariant": "den(self) == den_as(self, visited) and wf(self) and bk(self) and "
+                                 "implies(keys_ancbelow(args[0], gn()), keys_ancbelow(self, gn()))"}})
 
 contract("qubovert.utils._pubomatrix:PUBOMatrix.clear", props=["C05", "C14"],
          instances=[{"self": "model:" + c} for c in ALL],
@@ -126,7 +135,7 @@ contract("qubovert.utils._dict_arithmetic:DictArithmetic.copy", props=["C05", "C
          requires=["wf(self)"],
          returns=lambda env, eng: "fresh:model:" + env["self"].cls.name,
          ensures=["den(result) == den(self)", "wf(result)", "isfresh(result)", "sameclass(result, self)", "bk(result)",
-                  "anc_of(result) == anc_of(self)"])
+                  "anc_of(result) == anc_of(self)", AF_RESULT1])
 
 # ---------------------------------------------------------------------------------- in-place arithmetic
 def _others(c):
@@ -143,9 +152,9 @@ for op, sign in (("__iadd__", "+"), ("__isub__", "-")):
                        "isnumber(other) or distinct(self, other)"],
              returns="param:self", modifies=STORE_BK,
              ensures=["den(self) == old(den(self)) %s (other if isnumber(other) else den_as(self, other))" % sign,
-                      "wf(self)", "result is self", "implies(old(bk(self)), bk(self))"],
+                      "wf(self)", "result is self", "implies(old(bk(self)), bk(self))", AF_INPLACE],
              loops={1: {"invariant": "den(self) == old(den(self)) %s den_as(self, visited) and wf(self) and "
-                                     "implies(old(bk(self)), bk(self))" % sign}})
+                                     "implies(old(bk(self)), bk(self)) and " % sign + AF_INPLACE}})
 
 contract("qubovert.utils._dict_arithmetic:DictArithmetic.__imul__", props=["C05", "C14"],
          instances=[{"self": "model:" + c, "other": o} for c in PTYPES for o in _others(c)] +
@@ -154,11 +163,11 @@ contract("qubovert.utils._dict_arithmetic:DictArithmetic.__imul__", props=["C05"
                    "isnumber(other) or distinct(self, other)"],
          returns="param:self", modifies=STORE_BK,
          ensures=["den(self) == old(den(self)) * (other if isnumber(other) else den_as(self, other))",
-                  "wf(self)", "result is self", "implies(old(bk(self)), bk(self))"],
-         loops={1: {"invariant": "den(self) == den_as(self, visited) * den_as(self, other) and wf(self) and implies(old(bk(self)), bk(self))"},
+                  "wf(self)", "result is self", "implies(old(bk(self)), bk(self))", AF_INPLACE],
+         loops={1: {"invariant": "den(self) == den_as(self, visited) * den_as(self, other) and wf(self) and implies(old(bk(self)), bk(self)) and " + AF_INPLACE},
                 2: {"invariant": "den(self) == den_as(self, visited1) * den_as(self, other) + "
-                                 "v * mono_as(self, k) * den_as(self, visited2) and wf(self) and implies(old(bk(self)), bk(self))"},
-                3: {"invariant": "den(self) == den_as(self, coll) + (other - 1) * den_as(self, visited) and wf(self) and implies(old(bk(self)), bk(self)) and "
+                                 "v * mono_as(self, k) * den_as(self, visited2) and wf(self) and implies(old(bk(self)), bk(self)) and " + AF_INPLACE},
+                3: {"invariant": "den(self) == den_as(self, coll) + (other - 1) * den_as(self, visited) and wf(self) and implies(old(bk(self)), bk(self)) and " + AF_SELF1 + " and "
                                  "forall_key(lambda q: implies(not has(visited, q), has(self, q) == has(coll, q) and "
                                  "lookup(self, q) == lookup(coll, q)))"}})
 
@@ -166,8 +175,8 @@ contract("qubovert.utils._dict_arithmetic:DictArithmetic.__itruediv__", props=["
          instances=[{"self": "model:" + c, "other": "real"} for c in ALL],
          requires=["wf(self)", "other != 0"],
          returns="param:self", modifies=STORE_BK,
-         ensures=["den(self) * other == old(den(self))", "wf(self)", "result is self", "implies(old(bk(self)), bk(self))"],
-         loops={1: {"invariant": "den(self) * other == den_as(self, coll) * other + (1 - other) * den_as(self, visited) and wf(self) and implies(old(bk(self)), bk(self)) and "
+         ensures=["den(self) * other == old(den(self))", "wf(self)", "result is self", "implies(old(bk(self)), bk(self))", AF_SELF1],
+         loops={1: {"invariant": "den(self) * other == den_as(self, coll) * other + (1 - other) * den_as(self, visited) and wf(self) and implies(old(bk(self)), bk(self)) and " + AF_SELF1 + " and "
                                  "forall_key(lambda q: implies(not has(visited, q), has(self, q) == has(coll, q) and "
                                  "lookup(self, q) == lookup(coll, q)))"}})
 
@@ -176,18 +185,20 @@ contract("qubovert.utils._dict_arithmetic:DictArithmetic.__ipow__", props=["C05"
                    [{"self": "model:" + c, "exponent": "const:1"} for c in ("QUBO", "QUSO", "QUBOMatrix", "QUSOMatrix")],
          requires=["wf(self)"],
          returns="param:self", modifies=STORE_BK,
-         ensures=["den(self) == old(den(self)) ** exponent", "wf(self)", "result is self", "implies(old(bk(self)), bk(self))"],
+         ensures=["den(self) == old(den(self)) ** exponent", "wf(self)", "result is self", "implies(old(bk(self)), bk(self))", AF_SELF1],
          note="exponents 1..3 (concretely unrolled); symbolic exponents are left to the bounded stand-in")
 contract("qubovert.utils._dict_arithmetic:DictArithmetic.__ipow__#err", props=["C05"], trusted=True,
          instances=[], note="placeholder") if False else None
 
 # ---------------------------------------------------------------------------------- copying wrappers
 def _wrap(name, instances, ens, extra_req=()):
+    binary = any("other" in i for i in instances)
     contract("qubovert.utils._dict_arithmetic:DictArithmetic." + name, props=["C05", "C19"],
              instances=instances,
              requires=["wf(self)"] + list(extra_req),
              returns=lambda env, eng: "fresh:model:" + env["self"].cls.name,
-             ensures=[ens, "wf(result)", "isfresh(result)", "sameclass(result, self)", "bk(result)"])
+             ensures=[ens, "wf(result)", "isfresh(result)", "sameclass(result, self)", "bk(result)",
+                      AF_RESULT2 if binary else AF_RESULT1])
 
 
 _OTH = "(other if isnumber(other) else den_as(self, other))"
@@ -221,6 +232,6 @@ contract("qubovert.utils._pubomatrix:PUBOMatrix.refresh", props=["C14"],
          instances=[{"self": "model:" + c} for c in ALL],
          requires=["wf(self)"],
          returns="none", modifies=["self"],
-         ensures=["den(self) == old(den(self))", "wf(self)", "bk(self)", "anc_of(self) == old(anc_of(self))"],
+         ensures=["den(self) == old(den(self))", "wf(self)", "bk(self)", "anc_of(self) == old(anc_of(self))", AF_SELF1],
          note="refresh() leaves the represented function unchanged and re-establishes the bookkeeping invariant; "
               "exactness of variables/degree after refresh is bounded (C14.refresh_exact)")
